@@ -106,6 +106,7 @@ type streamSim struct {
 	kind              string // "execute" or "wait"
 	exec              *execInfo
 	waitName          string
+	parkedAuth        bool
 	cancelled, broken bool
 	startStep         int
 	endStep           int
@@ -800,6 +801,7 @@ func (w *world) stepWaitParked() bool {
 	name := rapid.SampledFrom(names).Draw(w.rt, "opName")
 	s := w.newStream("wait")
 	s.waitName = name
+	s.parkedAuth = true
 	w.record("waitExecutionParkedAuth", fmt.Sprintf("stream=%d name=%s", s.id, shortName(name)))
 	w.execAuthGate.arm()
 	go func() {
@@ -863,6 +865,18 @@ func (w *world) stepReleaseAuth() bool {
 			if !r {
 				w.m.onKill(pk.name, pk.status)
 				w.m.label("kill_after_parked_authorization")
+			}
+		}
+	}
+	if which == 0 {
+		for _, s := range w.liveStreams() {
+			if s.parkedAuth {
+				s.parkedAuth = false
+				if op := w.m.ops[s.waitName]; op != nil && op.removed {
+					w.m.label("wait_authorized_after_operation_removed")
+				} else {
+					w.m.label("wait_authorized_operation_still_there")
+				}
 			}
 		}
 	}
